@@ -1,0 +1,19 @@
+//go:build verif
+
+package p2p
+
+import (
+	"hash"
+	"io"
+)
+
+// Exports for the verification harness (/verif): RLPx frame reader/writer over a caller-supplied stream
+// with given secrets, and the 24-bit size decoder.
+
+func VerifNewFrameRW(conn io.ReadWriter, aesKey, macKey []byte, egressMAC, ingressMAC hash.Hash) MsgReadWriter {
+	return newRLPXFrameRW(conn, secrets{AES: aesKey, MAC: macKey, EgressMAC: egressMAC, IngressMAC: ingressMAC})
+}
+
+func VerifReadInt24(b []byte) uint32 { return readInt24(b) }
+
+const VerifMaxUint24 = maxUint24
